@@ -288,6 +288,81 @@ def _mask_sequence(vals, acc):
             return
 
 
+class LazyMessage(str):
+    """A lazily rendered message (like a lazily translated one): a str subclass
+    whose text only appears when it is converted with str()."""
+    def __new__(cls, template, **kw):
+        self = super().__new__(cls, template)
+        self.kw = kw
+        return self
+
+    def __str__(self):
+        return str.__str__(self) % self.kw
+
+
+class Obj:
+    def __init__(self, text):
+        self.text = text
+
+    def __str__(self):
+        return self.text
+
+
+def _object_case(vals, acc):
+    """mask_password(obj) masks str(obj): objects, exceptions, str subclasses."""
+    from oslo_utils import strutils
+    (key, ri), kind = vals
+    name, tmpl, family = RENDERINGS[ri]
+    text = 'call failed: ' + tmpl % {'k': key, 'v': 'Zq9x'} + ' (retrying)'
+    exp = 'call failed: ' + tmpl % {'k': key, 'v': '***'} + ' (retrying)'
+    if kind == 'lazy-str-subclass':
+        arg = LazyMessage('call failed: %(detail)s (retrying)', detail=tmpl % {'k': key, 'v': 'Zq9x'})
+    elif kind == 'object':
+        arg = Obj(text)
+    elif kind == 'exception':
+        arg = ValueError(text)
+    else:
+        arg = str(text)
+    acc.nontrivial('obj' + kind + text)
+    try:
+        got = strutils.mask_password(arg)
+    except Exception as e:
+        got = 'raises ' + type(e).__name__
+    if got != exp or type(got) is not str and not isinstance(got, str):
+        acc.fail('non-str-message:%s' % kind, {'argument_kind': kind, 'str_of_argument': text,
+                                               'got': str(got), 'expected': exp},
+                 {'object_case': [key, ri, kind]})
+
+
+UNICODE_BLANKS = ['\xa0', '\u2003', '\u3000']
+
+
+def _unicode_case(vals, acc):
+    """Letter case and blanks are Unicode notions: the Kelvin sign lower-cases to
+    'k', a no-break / em / ideographic space is white space."""
+    from oslo_utils import strutils
+    key, ri, variant = vals
+    name, tmpl, family = RENDERINGS[ri]
+    k = key
+    t = tmpl
+    if variant == 'kelvin':
+        if 'k' not in key:
+            return
+        k = key.replace('k', '\u212a', 1)
+    else:
+        if ' ' not in tmpl:
+            return
+        t = tmpl.replace(' ', variant)
+    msg = 'a ' + t % {'k': k, 'v': 'Zq9x'} + ' z'
+    exp = 'a ' + t % {'k': k, 'v': '***'} + ' z'
+    acc.nontrivial('uni' + msg)
+    got = strutils.mask_password(msg)
+    if got != exp:
+        acc.fail('unicode:%s' % ('kelvin' if variant == 'kelvin' else 'blank'),
+                 {'message': msg, 'got': got, 'expected': exp},
+                 {'message': msg, 'mask': '***', 'expected': exp})
+
+
 def _nokey(vals, acc):
     from oslo_utils import strutils
     msg, mask = vals
@@ -339,6 +414,13 @@ def run(ctx):
     E.run(rep, 'mask-sequences', [[(k, r) for k in rep_keys[:2] for r in rlist],
                                   [p for p in _it.permutations(MASKS + ['#'], 3)]],
           _mask_sequence)
+    # product 3f: messages that are not plain str objects
+    E.run(rep, 'non-str-messages', [[(k, r) for k in rep_keys for r in rlist],
+                                    ['lazy-str-subclass', 'object', 'exception', 'plain']], _object_case)
+    # product 3g: Unicode letter case / white space
+    E.run(rep, 'unicode-case-and-blanks', [[k for k in KEYS if 'k' in k][:6] + ['password'],
+                                           [0, 1, 3, 4, 9, 10, 12], ['kelvin'] + UNICODE_BLANKS],
+          _unicode_case)
     # product 4: a quote after the secret (known finding F4 on dict renderings)
     E.run(rep, 'quote-after',
           [rep_keys, ['lower'], rlist, ['Zq9'], QUOTE_CONTEXTS, ['***'], [None]], _case)
@@ -382,6 +464,11 @@ def replay(payload):
     if 'long' in payload:
         acc = _Acc()
         _long_case(tuple(payload['long']), acc)
+        return {'violates': bool(acc.fails), 'problems': acc.fails}
+    if 'object_case' in payload:
+        acc = _Acc()
+        k, ri, kind = payload['object_case']
+        _object_case(((k, ri), kind), acc)
         return {'violates': bool(acc.fails), 'problems': acc.fails}
     if 'sequence' in payload:
         msg, masks, tmpl, key = payload['sequence']
